@@ -100,14 +100,14 @@ def check_namespace(case: typing.Any, ctx: Ctx) -> Info:
         ctx.cleanup(d)
     names = [wsp.full_name(ws, x) for x in ws["defs"]]
     multi_version = len(set(names)) < len(names)
-    classes = ["roots:%d" % len(ws["roots"]), "defs:%d" % len(ws["defs"]), "root-style:%d" % (case["root_style"] % 8)]
+    classes = ["roots:%d" % len(ws["roots"]), "defs:%d" % len(ws["defs"]), "root-style:%d" % (case["root_style"] % 10)]
     if multi_version:
         classes.append("multi-version")
     if case["salt"]:
         classes.append("salted")
     if any(x.get("legacy") for x in ws["defs"]):
         classes.append("legacy-ext")
-    nontrivial = multi_version or len(ws["roots"]) >= 2 or case["root_style"] % 8 != 0
+    nontrivial = multi_version or len(ws["roots"]) >= 2 or case["root_style"] % 10 != 0
     return Info(nontrivial, classes, sample={"files": sorted(wsp.rel_path(ws, x) for x in ws["defs"]), "root": repr(root_arg), "lookups": repr(lookup_arg)})
 
 
@@ -180,6 +180,12 @@ def check_files(case: typing.Any, ctx: Ctx) -> Info:
         order = case["order"]
         perm = [abs_paths[(k * (order % 7 + 1) + order) % len(abs_paths)] for k in range(len(abs_paths))]
         perm = perm + [p for p in abs_paths if p not in perm]
+        ts = case.get("target_style", 0) % 10
+        if ts in (1, 8):
+            # the target files, too, may be named in equivalent absolute ways (Path objects, "<link>/.." detours).  Relative target
+            # paths are not respelled here: the library reads a relative target as "<root namespace name>/..." under the parent of a
+            # root (documented), which is C15's business.
+            perm = [os.path.join(str(nu.spell_directory(d, os.path.relpath(os.path.dirname(p), d), ts, os.path.join(d, "links"))), os.path.basename(p)) for p in perm]
         if case["duplicate"]:
             perm = perm + [perm[0]]
         roots_alt = [nu.spell_directory(d, wsp.root_dir(ws, i), case["root_style"] + i, os.path.join(d, "links")) for i in range(len(ws["roots"]))]
@@ -193,6 +199,76 @@ def check_files(case: typing.Any, ctx: Ctx) -> Info:
         ctx.cleanup(d)
     classes = ["files"] + (["after-a-failed-call"] if case.get("after_failure") else []) + ["targets:%d" % len(targets), "transitive:%s" % ("0" if not want_trans else ">=1"), "roots:%d" % len(ws["roots"])]
     return Info(bool(want_trans) or len(ws["roots"]) >= 2, classes, sample={"targets": [wsp.rel_path(ws, ws["defs"][i]) for i in targets], "transitive": ids(want_trans)})
+
+
+def check_files_shared(case: typing.Any, ctx: Ctx) -> Info:
+    """Several directories of the same name (in different parents) contribute to one root namespace - read_files allows that -
+    and the root namespace is designated by its bare *name*, by paths, or by a mixture; the directories that hold only
+    dependencies are then known through the lookup argument."""
+    import pydsdl
+
+    ws = case["ws"]
+    d = _write(ctx, ws, False)
+    try:
+        n = len(ws["defs"])
+        targets = []
+        for t in case["targets"]:
+            if t % n not in targets:
+                targets.append(t % n)
+        name = ws["roots"][0]["name"]
+        all_roots = [os.path.join(d, wsp.root_dir(ws, i)) for i in range(len(ws["roots"]))]
+        where = "workspace %s targets %s" % (sorted(wsp.rel_path(ws, x) for x in ws["defs"]), [wsp.rel_path(ws, ws["defs"][i]) for i in targets])
+        closure = wsp.closure(ws, targets)
+        want_direct = nu.expected_order(ws, targets)
+        want_trans = nu.expected_order(ws, closure - set(targets))
+
+        def ids(indices: typing.Iterable[int]) -> typing.List[typing.Any]:
+            return [(wsp.full_name(ws, ws["defs"][i]), ws["defs"][i]["version"][0], ws["defs"][i]["version"][1]) for i in indices]
+
+        def run(paths: typing.List[typing.Any], roots: typing.Any, lookups: typing.Any, what: str) -> typing.Any:
+            with nu.cwd(d), nu.salted_hashes(case["salt"] if what.endswith("variant") else 0):
+                (direct, trans), _ = guarded(pydsdl.read_files, paths, roots, lookups, what=what)
+            gd, gt = [wsp.ident(t) for t in direct], [wsp.ident(t) for t in trans]
+            w = where + " call paths=%r roots=%r lookups=%r" % (paths, roots, lookups)
+            require(gd == ids(want_direct), "files-direct-set:same-name-roots", ids(want_direct), gd, w)
+            require(gt == ids(want_trans), "files-transitive-set:same-name-roots", ids(want_trans), gt, w)
+            return [nu.canonical(ws, direct, d), nu.canonical(ws, trans, d)]
+
+        abs_paths = [os.path.join(d, wsp.rel_path(ws, ws["defs"][i])) for i in targets]
+        c0 = run(abs_paths, all_roots, None, "read_files:same-name-roots:baseline")
+        for c, i in zip(c0[0] + c0[1], want_direct + want_trans):
+            require(c[1] == wsp.rel_path(ws, ws["defs"][i]) and c[2] == wsp.root_dir(ws, ws["defs"][i]["root"]), "files-source-path:same-name-roots",
+                    [wsp.rel_path(ws, ws["defs"][i]), wsp.root_dir(ws, ws["defs"][i]["root"])], c[1:3], where)
+        # by name: the directories of the targets are inferred from the target paths; a directory that holds only dependencies has
+        # to be named somewhere
+        target_roots = {ws["defs"][i]["root"] for i in targets}
+        other_roots = sorted({ws["defs"][i]["root"] for i in closure} - target_roots)
+        how = case["how"] % 4
+        style = case["style"]
+        spelled_others = [nu.spell_directory(d, wsp.root_dir(ws, r), style + r, os.path.join(d, "links")) for r in other_roots]
+        roots_arg: typing.Any = [name]
+        lookups_arg: typing.Any = None
+        if how in (0, 3):
+            lookups_arg = spelled_others or None
+        elif how == 1:
+            roots_arg = [name] + spelled_others
+        else:
+            some = [r for r in sorted(target_roots) if (case["salt"] >> r) & 1]
+            roots_arg = [nu.spell_directory(d, wsp.root_dir(ws, r), style + r + 1, os.path.join(d, "links")) for r in some] + [name]
+            lookups_arg = spelled_others or None
+        if case["salt"] % 3 == 0:
+            roots_arg = list(reversed(roots_arg))
+        if len(roots_arg) == 1 and case["salt"] % 2:
+            roots_arg = roots_arg[0]
+        paths = abs_paths if how != 3 else [wsp.rel_path(ws, ws["defs"][i]) for i in targets]
+        order = case["order"]
+        paths = [paths[(k + order) % len(paths)] for k in range(len(paths))]
+        c1 = run(paths, roots_arg, lookups_arg, "read_files:same-name-roots:variant")
+        require(c1 == c0, "files-result-depends-on-root-designation", c0, c1, where + " roots=%r lookups=%r" % (roots_arg, lookups_arg))
+    finally:
+        ctx.cleanup(d)
+    classes = ["same-name-roots", "how:%d" % how, "target-roots:%d" % len(target_roots), "dependency-only-roots:%d" % len(other_roots), "transitive:%s" % ("0" if not want_trans else ">=1")]
+    return Info(len(target_roots) >= 2 or bool(want_trans), classes, sample={"targets": [wsp.rel_path(ws, ws["defs"][i]) for i in targets], "roots": repr(roots_arg), "lookups": repr(lookups_arg)})
 
 
 DIR_POOL = ["p0/ns", "p0/ns/sub", "p0/ns/sub/deeper", "p1/ns", "p1/NS", "p1/other", "p2/Other", "p2/nsx", "p3/ns/x/ns", "p2/ns", "p0/nsub", "p0/ns/s"]
@@ -302,8 +378,8 @@ def parts(ctx: Ctx) -> typing.List[Part]:
         {
             "ws": ws,
             "target_root": st.integers(0, 3),
-            "lookups": st.lists(st.fixed_dictionaries({"root": st.integers(0, 3), "style": st.integers(0, 7)}), max_size=4),
-            "root_style": st.integers(0, 7),
+            "lookups": st.lists(st.fixed_dictionaries({"root": st.integers(0, 3), "style": st.integers(0, 9)}), max_size=4),
+            "root_style": st.integers(0, 9),
             "single_lookup_as_scalar": st.booleans(),
             "salt": st.one_of(st.just(0), st.integers(1, 2**31)),
             "rglob_seed": st.integers(0, 2**20),
@@ -317,7 +393,8 @@ def parts(ctx: Ctx) -> typing.List[Part]:
             "order": st.integers(0, 1000),
             "duplicate": st.booleans(),
             "after_failure": st.booleans(),
-            "root_style": st.integers(0, 7),
+            "root_style": st.integers(0, 9),
+            "target_style": st.integers(0, 9),
             "salt": st.integers(1, 2**31),
             "rglob_seed": st.integers(0, 2**20),
         }
@@ -327,7 +404,7 @@ def parts(ctx: Ctx) -> typing.List[Part]:
             "root": st.integers(0, len(DIR_POOL) - 1),
             "lookups": st.lists(st.integers(0, len(DIR_POOL) - 1), max_size=4),
             "allow": st.booleans(),
-            "style": st.integers(0, 7),
+            "style": st.integers(0, 9),
             "salt": st.integers(0, 2**31),
         }
     )
@@ -338,9 +415,20 @@ def parts(ctx: Ctx) -> typing.List[Part]:
             "seeds": st.lists(st.integers(4, 2**31 - 1), min_size=1, max_size=1),
         }
     )
+    shared_cases = st.fixed_dictionaries(
+        {
+            "ws": wsp.definitions(max_defs=8, roots=3, same_name=True, min_defs=2),
+            "targets": st.lists(st.integers(0, 30), min_size=1, max_size=5),
+            "how": st.integers(0, 3),
+            "style": st.integers(0, 9),
+            "order": st.integers(0, 7),
+            "salt": st.integers(1, 2**31),
+        }
+    )
     return [
         Part("namespace", ns_cases, check_namespace, weight=4, cost=1.0),
         Part("files", file_cases, check_files, weight=3, cost=1.5),
+        Part("files-same-name", shared_cases, check_files_shared, weight=2, cost=1.0),
         Part("dirsets", dir_cases, check_dirsets, weight=2, cost=0.7),
         Part("hashseeds", seed_cases, check_hashseeds, weight=1, cost=6.0, min_examples=4),
     ]
